@@ -203,6 +203,51 @@ def monitor_tail(case, ev):
     return None
 
 
+def monitor_drain_tail(case, ev):
+    """Fair drain tail of a protocol-respecting history (harness generate): no new requests,
+    every round = one tick, all four data out-buffers emptied, every forwarded request
+    answered, the control port looked at.  Each round completes at least one pending
+    transaction per path (rdma_response_progress) and, once both lists are empty, the next
+    tick pushes the DrainRsp (rdma_drain_progress; the control out-buffer is empty because
+    it is looked at every round).  So: a DrainReq accepted, then 2*(unanswered)+6 complete
+    rounds, nothing in flight at the end, and still no DrainRsp = the drain is never
+    acknowledged although no remote transaction is in flight."""
+    t0 = case.get('drain_tail')
+    if case.get('hostile') or not t0 or any(e.get('crash') for e in ev):
+        return None
+    dreqs = [i for i in range(len(ev)) if ev[i]['e'] == 'd' and ev[i]['port'] == 'CT' and ev[i].get('acc')]
+    if not dreqs or ev[dreqs[-1]]['msg']['flags'] != FL_DRAIN_REQ:
+        return None
+    d = dreqs[-1]
+    if any(e['e'] == 'd' and e['port'] in ('RI', 'DO') for e in ev[max(d, t0):]):
+        return None
+    if any(e['e'] == 'r' and e['port'] == 'CT' and e.get('got') and e['got']['flags'] == FL_DRAIN_RSP for e in ev[d:]):
+        return None
+    start = max(d, t0)
+    acc = sum(1 for e in ev[:start] if e['e'] == 'd' and e['port'] in ('RI', 'DO') and e.get('acc'))
+    ans = sum(1 for e in ev[:start] if e['e'] == 'r' and e['port'] in ('RI', 'DO') and e.get('got'))
+    need = 2 * (acc - ans) + 6
+    ticks = [i for i in range(start, len(ev)) if ev[i]['e'] == 'tick'] + [len(ev)]
+    rounds = 0
+    for a, b in zip(ticks, ticks[1:]):
+        seg = ev[a + 1:b]
+        emptied = all(any(e['e'] == 'r' and e['port'] == p and e.get('none') for e in seg) for p in ('RO', 'DI', 'RI', 'DO'))
+        looked = any(e['e'] == 'r' and e['port'] == 'CT' for e in seg)
+        served = True
+        for fport in ('RO', 'DI'):
+            got = [e['got']['id'] for e in ev[:b] if e['e'] == 'r' and e['port'] == fport and e.get('got')]
+            tried = {e['msg']['rspto'] for e in ev[:b] if e['e'] == 'd' and e['port'] == fport}
+            served = served and all(g in tried for g in got)
+        if emptied and looked and served:
+            rounds += 1
+    if rounds < need or in_flight(ev, len(ev)):
+        return None
+    return ('the drain requested at event %d is never acknowledged although no remote transaction is in flight: every forwarded request '
+            '(%d + %d) was answered, all out-buffers were emptied in each of %d fair rounds (%d needed), the control port stayed silent'
+            % (d, sum(1 for e in ev if e['e'] == 'r' and e['port'] == 'RO' and e.get('got')),
+               sum(1 for e in ev if e['e'] == 'r' and e['port'] == 'DI' and e.get('got')), rounds, need))
+
+
 def monitor(case):
     ev = case['events']
     if any(e.get('crash') for e in ev) and not case.get('hostile'):
@@ -210,7 +255,8 @@ def monitor(case):
     return (monitor_path(case, ev, 'RI', 'RO', 'remote', BASE_IN, 'inside->outside')
             or monitor_path(case, ev, 'DO', 'DI', 'local', BASE_OUT, 'outside->inside')
             or monitor_drain(case, ev)
-            or monitor_tail(case, ev))
+            or monitor_tail(case, ev)
+            or monitor_drain_tail(case, ev))
 
 
 def env_ok(case):
@@ -262,7 +308,7 @@ def strip(case):
     c['hostile'] = case.get('hostile', False)
     if case.get('lazy'):
         c['lazy'] = True
-    for k in ('busy', 'serve', 'tail_start'):
+    for k in ('busy', 'serve', 'tail_start', 'drain_tail'):
         if k in case:
             c[k] = case[k]
     c['events'] = [{'e': e['e'], **({'port': e['port']} if 'port' in e else {}),
@@ -455,6 +501,14 @@ def e2e_matrix(thorough):
             runs.append(('fir', n, gl, True, False))
             if thorough:
                 runs.append(('fir', n, gl, True, True))
+        # unified device + a kernel with an LDS (LocalPtr) argument + enough work-groups that EVERY member
+        # GPU gets some (64 CUs per GPU, ceil(WGs/CUs) work-groups per CU): 81 / 144 / 196 work-groups
+        w = {2: 576, 3: 768, 4: 896}[g]
+        runs.append(('matrixtranspose', w, gl, True, False))
+        if g == 2 or thorough:
+            runs.append(('matrixtranspose', 1024, gl, True, False))
+        if g == 2 and thorough:
+            runs.append(('matrixtranspose', w, gl, True, True))  # ~20 s
     return runs
 
 
@@ -472,6 +526,8 @@ def e2e_one(args):
     res = {'bench': bench, 'size': size, 'gpus': gl, 'unified': unified, 'timing': timing, 'rc': rc,
            'wall_s': round(time.time() - t0, 2), 'timeout': rc == 124, 'data': None, 'verify': None, 'tail': log[-400:]}
     for line in log.split('\n'):
+        if res.get('panic') is None and ('panic:' in line or 'Panic' in line):
+            res['panic'] = line.strip()[:300]
         if line.startswith('{"bench"'):
             try:
                 res['data'] = json.loads(line)
@@ -499,7 +555,7 @@ def monitor_e2e(r, base):
     if r['timeout']:
         return nm + ': does not terminate'
     if r['data'] is None:
-        return nm + ': crashed before its buffers could be read: ' + r['tail'][-200:]
+        return nm + ': crashed before its buffers could be read: ' + (r.get('panic') or r['tail'][-200:])
     if base is None or base['data'] is None or base['verify'] != 'pass':
         return None if base is None else e2e_name(base) + ': the single-GPU run itself fails (%s)' % (base['verify'] or base['tail'][-150:])
     b0 = {b['name']: b for b in base['data']['buffers']}
@@ -512,6 +568,19 @@ def monitor_e2e(r, base):
                     % (name, b1[name]['size'], b1[name]['head'][:32], b0[name]['head'][:32], r['verify'] or 'aborted the process'))
     if r['verify'] != 'pass':
         return nm + ': the benchmark rejects its own result (%s)' % (r['verify'] or 'verification aborted the process')
+    if r['unified']:
+        # one unified launch: every member GPU must receive the same packet and the same kernel
+        # arguments; only the work-group filter differs
+        ls = r['data']['launches']
+        key = lambda l: (tuple(l['grid']), tuple(l['wg']), l['group_segment_size'], l['private_segment_size'], l['kernarg_sha256'])
+        groups = {}
+        for l in ls:
+            groups.setdefault((tuple(l['grid']), tuple(l['wg'])), []).append(l)
+        for same in groups.values():
+            if len({key(l) for l in same}) > 1:
+                a, b = same[0], [l for l in same if key(l) != key(same[0])][0]
+                return (nm + ': the member GPUs of the unified device receive different launches: GPU %d group segment %d kernarg %s..., GPU %d group segment %d kernarg %s...'
+                        % (a['gpu'], a['group_segment_size'], a['kernarg_head'][:64], b['gpu'], b['group_segment_size'], b['kernarg_head'][:64]))
     if not r['unified']:
         # whatever split the benchmark uses, its slices must be a partition: one launch per GPU at
         # most, lengths adding up to the number of items (the exact slices are compared with the
@@ -714,6 +783,8 @@ def main(argv):
         'rdma_answers_observed': sum(1 for c in cases for e in c['events'] if e['e'] == 'r' and e['port'] in ('RI', 'DO') and e.get('got')),
         'rdma_drain_acks_observed': sum(1 for c in cases for e in c['events'] if e['e'] == 'r' and e['port'] == 'CT' and e.get('got') and e['got']['flags'] == FL_DRAIN_RSP),
         'rdma_hostile_cases': sum(1 for c in cases if c.get('hostile')),
+        'rdma_fair_drain_tails': sum(1 for c in cases if c.get('drain_tail')),
+        'rdma_fair_drain_tails_acknowledged': sum(1 for c in cases if c.get('drain_tail') and any(e['e'] == 'r' and e.get('port') == 'CT' and e.get('got') and e['got']['flags'] == FL_DRAIN_RSP for e in c['events'][c['drain_tail']:])),
         'rdma_busy_fair_tail_cases': sum(1 for c in cases if c.get('busy')),
         'rdma_busy_max_starved_transactions': max([len(in_flight(c['events'], len(c['events']))) for c in cases if c.get('busy')] or [0]),
         'rdma_ctrl_backpressure_cases': sum(1 for c in cases if c.get('lazy')),
@@ -758,7 +829,7 @@ def main(argv):
     if bad:
         i, msg = bad[0]
         c = cases[i]
-        small = c['events'] if c.get('busy') else vlib.ddmin(c['events'], lambda evs: fails_monitor(evs, c))
+        small = c['events'] if (c.get('busy') or 'never acknowledged' in msg) else vlib.ddmin(c['events'], lambda evs: fails_monitor(evs, c))
         c2 = strip(c)
         c2['events'] = [{'e': e['e'], **({'port': e['port']} if 'port' in e else {}), **({'msg': e['msg']} if 'msg' in e else {})} for e in small]
         out, _ = run_harness(binary, 'rdma', cases=[c2])
